@@ -1113,6 +1113,8 @@ void ext2_obligations(void)
 			if (o->xi[IX_STATE] >= 1 && o->xi[IX_STATE] <= 3) {
 				int pool = (int)po->p[0];
 				int owner = pool >= 0 ? PL->obj[pool].owner : po->owner;
+				if (RT[owner].in_main && pool >= 0 && RO[pool].xi[QX_PUT])
+					viol("C12.lost", "quiescence: work item obj %d, submitted before its pool was released, never completed (state %" PRId64 ")", i, o->xi[IX_STATE]);
 				if (RT[owner].in_main)
 					viol(pool >= 0 && RO[pool].xi[QX_PUT] ? "C13.drain" : "C12.lost",
 					     "quiescence: work item obj %d is still in state %" PRId64 " (1 submitted, 2 working, 3 work function returned): its %s never happened",
